@@ -37,7 +37,7 @@ var fixtureDeps = []dep{
 	{"~/v1/api", "api"}, {"~/v2/api", "api"}, {"~/1st/log", "log"}, {"~/2nd/log", "log"},
 	{"~/dep/time", "time"}, {"~/yaml.v2", "yaml"}, {"~/Upper/Case", "kase"},
 	{"~/names/s", "s"}, {"~/names/err", "err"}, {"~/names/mock", "mock"}, {"~/kw/type", "kw"},
-	{"~/names/fooMoqParam", "fooMoqParam"}, {"~/names/n", "n"}, {"~/names/s1", "s1"}, {"~/names/s2", "s2"}, {"~/q/tri", "tri"}, {"~/q/one", "one"}, {"~/q/two", "two"},
+	{"~/names/fooMoqParam", "fooMoqParam"}, {"~/names/n", "n"}, {"~/names/s1", "s1"}, {"~/names/s2", "s2"}, {"~/q/tri", "tri"}, {"~/apps/v1beta1", "apps"}, {"~/apps/v2", "apps"}, {"~/q/one", "one"}, {"~/q/two", "two"},
 }
 
 var stdDeps = []dep{
@@ -86,6 +86,10 @@ type B int
 type E error
 
 type F func(T) T
+
+type S[X comparable] = map[X]struct{}
+
+type Getter[X any] interface{ Get() X }
 `
 }
 
